@@ -49,6 +49,9 @@ def formula(n, deps, salt):
     if len(run) >= 2 and run == list(range(run[0], run[-1] + 1)) and mode in (0, 1, 3):
         a, b = ref(run[0], own, salt), ref(run[-1], own, salt + 1).split('!')[-1]   # a prefix goes on the first corner only
         rng_txt = f'{a}:{b}'
+        if run == [1, 2, 3] and mode == 3:
+            # the WHOLE column A of S1 (its stored cells are exactly nodes 1..3; the sheet may be narrower than it is tall)
+            rng_txt = 'A:A' if own == 0 and salt % 2 else f'{TITLES[0]}!A:A'
         terms.append(f'SUM({rng_txt})' if mode == 0 else f'COUNT({rng_txt})*10' if mode == 1 else f'SUM({rng_txt},0)')
         rest = [d for d in rest if d not in run]
     # nodes 6 and 7 (Z1, AA1) may be mentioned as the row area Z1:AA1 (one-letter to two-letter columns)
@@ -59,7 +62,10 @@ def formula(n, deps, salt):
     for i, d in enumerate(rest):
         f = salt + i * 3 + n
         m = (salt + i + n) % 6
-        if m == 0:
+        if d == 8 and m in (3, 4):
+            # node 8 is the only stored cell of column A of the second sheet (row 4 of a two-column sheet): the whole column mentions it alone
+            terms.append("SUM('Sh 2'!A:A)" if own != 1 or m == 3 else 'SUM(A:A)')
+        elif m == 0:
             terms.append(f'IF({ref(d, own, f)}>0,{ref(d, own, f + 1)},1)')
         elif m == 1:
             terms.append(f'IFERROR({ref(d, own, f)},0)')
